@@ -64,10 +64,16 @@ ConvFailed(e) ==
           \cup (IF e.r2.ok /\ e.r2.val = r.val THEN {} ELSE {"C08.Idempotent"})
           \cup (IF e.back.ok /\ WhollyKnown(in) /\ RoundTripExact(in.ty, StripOpt(t)) /\ ~AbsEq(e.back.val, in) THEN {"C08.RoundTrip"} ELSE {})
           \cup (IF in.st = "null" /\ r.val.st # "null" THEN {"C08.NullPassThrough"} ELSE {})
-          \cup (IF in.st = "k" /\ r.val.st # "k" /\ t.k # "dynamic" THEN {"C08.KnownStaysKnown"} ELSE {})
+          \* (a set holding unknown members has an unknown length: turning it into a list may give an unknown list)
+          \cup (IF in.st = "k" /\ r.val.st # "k" /\ t.k # "dynamic" /\ ~(in.ty.k = "set" /\ ~WhollyKnown(in)) THEN {"C08.KnownStaysKnown"} ELSE {})
           \cup (IF in.st = "unk" /\ \E i \in 1..Len(e.cands) : e.cands[i].r.ok /\ Ranked(e.cands[i].r.val) /\ ~Admits(UnmarkDeep(r.val), UnmarkDeep(e.cands[i].r.val))
                 THEN {"C08.UnknownAdmitsConvertedCandidates"} ELSE {})
           \cup (IF RefApplies(in, StripOpt(t)) /\ ~RefHolds(in, StripOpt(t), r.val) THEN {"C08.ResultIsRef"} ELSE {})
+          \* primitive spellings: a small number converts to its shortest decimal text, a boolean to true / false
+          \cup (IF in.st = "k" /\ t.k = "string" /\ in.ty.k = "number" /\ Has(in.v, "q") /\ AbsQ(in.v.q) < 4000000 /\ ~(r.val.st = "k" /\ r.val.ty.k = "string" /\ StrOf(r.val) = QText(in.v.q))
+                THEN {"C08.ResultIsRef"} ELSE {})
+          \cup (IF in.st = "k" /\ t.k = "string" /\ in.ty.k = "bool" /\ ~(r.val.st = "k" /\ r.val.ty.k = "string" /\ StrOf(r.val) = (IF BoolOf(in) THEN <<"t", "r", "u", "e">> ELSE <<"f", "a", "l", "s", "e">>))
+                THEN {"C08.ResultIsRef"} ELSE {})
           \cup (IF TopMarks(in) \subseteq MarksIn(r.val) /\ MarksIn(r.val) \subseteq MarksIn(in) THEN {} ELSE {"C04.ConvertKeepsMarks"})
         ELSE {})
 ConvNontrivial(e) == e.r.ok /\ ~TEquals(e["in"].ty, StripOpt(e.target))
